@@ -34,6 +34,7 @@ def itemToks (c : RenderCtx) : Item → List Tok
   | .edge a b (some hd) (some tl) =>
     [Tok.id (c.rid a).toList, Tok.arrow, Tok.id (c.rid b).toList, Tok.lbrack, Tok.id "lhead".toList, Tok.eq,
      clusterTok c hd, Tok.id "ltail".toList, Tok.eq, clusterTok c tl, Tok.rbrack, Tok.semi]
+  | .holder s => Tok.id (c.rid s).toList :: Tok.lbrack :: attrToks holderAttrs ++ [Tok.rbrack]
 
 /-- the tokens of the whole output -/
 def docToks (c : RenderCtx) (items : List Item) : List Tok :=
@@ -126,6 +127,9 @@ theorem styleAttrs_ok (c : RenderCtx) (hlab : ∀ j, NoBs (c.label j).toList) (j
       simp only [List.mem_cons, List.not_mem_nil, or_false] at h
       subst h
       exact hbase _ (by simp)
+
+theorem holderAttrs_ok : ∀ kv ∈ holderAttrs, IdOk kv.1.toList ∧ NoBs kv.2.toList := by
+  unfold holderAttrs IdOk NoBs; decide
 
 /-! ### attribute lists -/
 
@@ -289,6 +293,18 @@ theorem lex_item (c : RenderCtx) (hlab : ∀ j, NoBs (c.label j).toList) (it : I
     refine lex_id (cluster_idOk c tl) (by decide) ?_
     refine lex_rbrack ?_
     refine lex_semi ?_
+    exact lex_nl h
+  | .holder s =>
+    have e : (renderItem c (.holder s)).toList ++ rest =
+        (c.rid s).toList ++ ' ' :: '[' :: ((renderAttrs holderAttrs).toList ++ ']' :: '\n' :: rest) := by
+      simp [renderItem, String.toList_append]
+    rw [e]
+    simp only [itemToks, List.cons_append, List.append_assoc, List.nil_append]
+    refine lex_id (rid_idOk c s) (by decide) ?_
+    refine lex_sp ?_
+    refine lex_lbrack ?_
+    refine lex_attrs _ holderAttrs_ok ?_
+    refine lex_rbrack ?_
     exact lex_nl h
 
 theorem lex_items (c : RenderCtx) (hlab : ∀ j, NoBs (c.label j).toList) :
